@@ -88,6 +88,8 @@ static int mu_try_acquire_after_timeout_or_cancel (nsync_mu *mu, lock_type *l_ty
 		spin_attempts = nsync_spin_delay_ (spin_attempts);
 		old_word = ATM_LOAD (&mu->word);
 	}
+	/* The acquiring CAS above cleared MU_WRITER_WAITING; don't restore it below. */
+	old_word &= ~MU_WCLEAR_ON_ACQUIRE;
 	/* Check that w wasn't removed from the queue after our caller checked,
 	   but before we acquired the spinlock.
 	   The check of remove_count confirms that the waiter *w is still
